@@ -44,6 +44,13 @@ type c03Round struct {
 	// EOM; the header-only EOM packet only arrives after the consumer has
 	// read the DONE and sent its next request.
 	LateEOM bool `json:"late_eom,omitempty"`
+	// Sched: "" = the response is fed after the request was sent and is
+	// complete before the consumer starts; "overtake" = the first response
+	// packet is processed by the reader while the client is still inside the
+	// write of its last request packet (a fast server); "staged-nowait" = the
+	// consumer starts with wait=false when only the first response packet has
+	// arrived, the rest arrives while it is reading.
+	Sched string `json:"schedule,omitempty"`
 }
 
 type c03Case struct {
@@ -115,8 +122,35 @@ func c03Run(c *Ctx, cs c03Case) {
 	var heldEOM []byte
 	for ri, rd := range cs.Rounds {
 		r.Count("rounds", 1)
+		// response packets
+		var body []byte
+		for _, h := range rd.PkgsHex {
+			b, _ := hex.DecodeString(h)
+			body = append(body, b...)
+		}
+		var pkts [][]byte
+		if len(body) == 0 {
+			pkts = [][]byte{xport.Packet(byte(tds.TDS_BUF_RESPONSE), xport.EOM, 0, nil)}
+		} else {
+			pkts = c02Packets(body, rd.Cuts, nil, rd.EmptyEOM)
+		}
+		fedEarly := 0
+		if rd.Sched == "overtake" && heldEOM == nil {
+			// the server answers so fast that the reader goroutine has
+			// processed the first response packet before the client's
+			// write call of the last request packet returns
+			k.tr.OnWrite = func(rec xport.WriteRec) {
+				if h, err := xport.ParseHeader(rec.Data); err == nil && h.Status&xport.EOM != 0 && fedEarly == 0 {
+					fedEarly = 1
+					k.tr.Feed(pkts[0])
+					awaitIdle(k.tr, 30*time.Second)
+				}
+			}
+		}
 		// request
-		if err := k.ch.SendPackage(context.Background(), &tds.LanguagePackage{Cmd: fmt.Sprintf("select %d", ri)}); err != nil {
+		err := k.ch.SendPackage(context.Background(), &tds.LanguagePackage{Cmd: fmt.Sprintf("select %d", ri)})
+		k.tr.OnWrite = nil
+		if err != nil {
 			r.Violate("request-send-failed", fmt.Sprintf("round %d: SendPackage returned %v", ri, err), cs)
 			return
 		}
@@ -131,22 +165,41 @@ func c03Run(c *Ctx, cs c03Case) {
 			}
 		}
 		// response
-		var body []byte
-		for _, h := range rd.PkgsHex {
-			b, _ := hex.DecodeString(h)
-			body = append(body, b...)
+		// a staged consumer starts with wait=false: the first stage must
+		// hold the first deliverable package completely
+		stageN := 0
+		if rd.Sched == "staged-nowait" && !rd.LateEOM && rd.Style != "until-nil" {
+			firstEnd, off := -1, 0
+			for i, h := range rd.PkgsHex {
+				off += len(h) / 2
+				if rd.Kinds[i] != "env" && rd.Kinds[i] != "info" {
+					firstEnd = off
+					break
+				}
+			}
+			got := 0
+			for i, p := range pkts {
+				got += len(p) - 8
+				if firstEnd > 0 && got >= firstEnd {
+					stageN = i + 1
+					break
+				}
+			}
+			if stageN >= len(pkts) || stageN <= fedEarly {
+				stageN = 0
+			}
 		}
-		var pkts [][]byte
-		if len(body) == 0 {
-			pkts = [][]byte{xport.Packet(byte(tds.TDS_BUF_RESPONSE), xport.EOM, 0, nil)}
-		} else {
-			pkts = c02Packets(body, rd.Cuts, nil, rd.EmptyEOM)
-		}
-		if rd.LateEOM && len(pkts) >= 2 {
+		staged := stageN > 0
+		var later [][]byte
+		switch {
+		case rd.LateEOM && len(pkts) >= 2:
 			heldEOM = pkts[len(pkts)-1]
-			k.tr.Feed(pkts[:len(pkts)-1]...)
-		} else {
-			k.tr.Feed(pkts...)
+			k.tr.Feed(pkts[fedEarly : len(pkts)-1]...)
+		case staged:
+			k.tr.Feed(pkts[fedEarly:stageN]...)
+			later = pkts[stageN:]
+		default:
+			k.tr.Feed(pkts[fedEarly:]...)
 		}
 		if !awaitIdle(k.tr, 30*time.Second) {
 			r.Inconclusive("round %d: the reader did not come back for more input (shape %s)", ri, rd.Shape)
@@ -181,97 +234,116 @@ func c03Run(c *Ctx, cs c03Case) {
 		otherErr := ""
 		cbCalls := 0
 		roundOver := func() bool { return len(seen) > 0 && seen[len(seen)-1] == "done0" }
-		if rd.Style == "until-nil" {
-			// documented: with a nil callback all packages of the current
-			// response are consumed and io.EOF is returned (wrapped in an
-			// EEDError if the response carried messages)
-			pkg, err := k.ch.NextPackageUntil(ctx, true, nil)
-			switch {
-			case err != nil && ctx.Err() != nil && errors.Is(err, context.Canceled):
-				blocked = "NextPackageUntil(nil)"
-			case pkg != nil || (err != nil && !errors.Is(err, io.EOF)):
-				// the doc comment promises (nil, io.EOF); the library returns
-				// (nil, nil) unless the first package is the final DONE. The
-				// property only speaks about what is consumed, so both are
-				// accepted here (counted).
-				otherErr = fmt.Sprintf("NextPackageUntil with a nil callback returned (%v, %v), want no package and nil or io.EOF", pkg, err)
-			default:
-				if err == nil {
-					r.Count("nil_callback_returned_nil_instead_of_io.EOF", 1)
+		waitFlag := !staged // a staged consumer starts with wait=false: its first package is already queued
+		consume := func() {
+			if rd.Style == "until-nil" {
+				// documented: with a nil callback all packages of the current
+				// response are consumed and io.EOF is returned (wrapped in an
+				// EEDError if the response carried messages)
+				pkg, err := k.ch.NextPackageUntil(ctx, true, nil)
+				switch {
+				case err != nil && ctx.Err() != nil && errors.Is(err, context.Canceled):
+					blocked = "NextPackageUntil(nil)"
+				case pkg != nil || (err != nil && !errors.Is(err, io.EOF)):
+					// the doc comment promises (nil, io.EOF); the library returns
+					// (nil, nil) unless the first package is the final DONE. The
+					// property only speaks about what is consumed, so both are
+					// accepted here (counted).
+					otherErr = fmt.Sprintf("NextPackageUntil with a nil callback returned (%v, %v), want no package and nil or io.EOF", pkg, err)
+				default:
+					if err == nil {
+						r.Count("nil_callback_returned_nil_instead_of_io.EOF", 1)
+					}
+					// consumed without showing anything: the leftover check below
+					// verifies that the whole response is gone
+					seen = append([]string(nil), norm0(want)...)
 				}
-				// consumed without showing anything: the leftover check below
-				// verifies that the whole response is gone
-				seen = append([]string(nil), norm0(want)...)
-			}
-		} else if rd.Style == "nextpackage" {
-			for !roundOver() {
-				pkg, err := k.ch.NextPackage(ctx, true)
-				if err != nil {
-					if ctx.Err() != nil && errors.Is(err, context.Canceled) {
-						blocked = "NextPackage"
-					} else {
-						otherErr = err.Error()
-					}
-					break
-				}
-				seen = append(seen, c03Kind(pkg))
-				seenDump = append(seenDump, canon.Dump(pkg))
-			}
-		} else {
-			for !roundOver() && !aborted {
-				_, err := k.ch.NextPackageUntil(ctx, true, func(pkg tds.Package) (bool, error) {
-					idx := cbCalls
-					cbCalls++
-					kd := c03Kind(pkg)
-					seen = append(seen, kd)
-					seenDump = append(seenDump, canon.Dump(pkg))
-					if idx == rd.AbortAt {
-						switch rd.Outcome {
-						case "true":
-							return true, nil
-						case "eof":
-							return false, io.EOF
-						case "err":
-							aborted = true
-							return false, errC03Callback
-						case "err-wrapping-eof":
-							aborted = true
-							return false, errC03WrapsEOF
+			} else if rd.Style == "nextpackage" {
+				for !roundOver() {
+					pkg, err := k.ch.NextPackage(ctx, waitFlag || len(seen) > 0)
+					if err != nil {
+						if ctx.Err() != nil && errors.Is(err, context.Canceled) {
+							blocked = "NextPackage"
+						} else {
+							otherErr = err.Error()
 						}
-					}
-					return kd == "done0", nil
-				})
-				if err != nil {
-					switch {
-					case aborted:
-						cb := errC03Callback
-						if rd.Outcome == "err-wrapping-eof" {
-							cb = errC03WrapsEOF
-						}
-						if !errors.Is(err, cb) || err == io.EOF {
-							if ctx.Err() != nil && errors.Is(err, context.Canceled) {
-								blocked = "NextPackageUntil(drain)"
-							} else {
-								otherErr = "abort error does not match the callback's error: " + err.Error()
-							}
-						} else if ctx.Err() != nil {
-							// the callback's error came back, but only after
-							// the watchdog had to release a blocked drain
-							blocked = "NextPackageUntil(drain)"
-						}
-					case err == io.EOF && rd.Outcome == "eof":
-						// the consumer resumes
-						continue
-					case ctx.Err() != nil && errors.Is(err, context.Canceled):
-						blocked = "NextPackageUntil"
-					default:
-						otherErr = err.Error()
-					}
-					if blocked != "" || otherErr != "" {
 						break
 					}
+					seen = append(seen, c03Kind(pkg))
+					seenDump = append(seenDump, canon.Dump(pkg))
+				}
+			} else {
+				for !roundOver() && !aborted {
+					_, err := k.ch.NextPackageUntil(ctx, waitFlag || len(seen) > 0, func(pkg tds.Package) (bool, error) {
+						idx := cbCalls
+						cbCalls++
+						kd := c03Kind(pkg)
+						seen = append(seen, kd)
+						seenDump = append(seenDump, canon.Dump(pkg))
+						if idx == rd.AbortAt {
+							switch rd.Outcome {
+							case "true":
+								return true, nil
+							case "eof":
+								return false, io.EOF
+							case "err":
+								aborted = true
+								return false, errC03Callback
+							case "err-wrapping-eof":
+								aborted = true
+								return false, errC03WrapsEOF
+							}
+						}
+						return kd == "done0", nil
+					})
+					if err != nil {
+						switch {
+						case aborted:
+							cb := errC03Callback
+							if rd.Outcome == "err-wrapping-eof" {
+								cb = errC03WrapsEOF
+							}
+							if !errors.Is(err, cb) || err == io.EOF {
+								if ctx.Err() != nil && errors.Is(err, context.Canceled) {
+									blocked = "NextPackageUntil(drain)"
+								} else {
+									otherErr = "abort error does not match the callback's error: " + err.Error()
+								}
+							} else if ctx.Err() != nil {
+								// the callback's error came back, but only after
+								// the watchdog had to release a blocked drain
+								blocked = "NextPackageUntil(drain)"
+							}
+						case err == io.EOF && rd.Outcome == "eof":
+							// the consumer resumes
+							continue
+						case ctx.Err() != nil && errors.Is(err, context.Canceled):
+							blocked = "NextPackageUntil"
+						default:
+							otherErr = err.Error()
+						}
+						if blocked != "" || otherErr != "" {
+							break
+						}
+					}
 				}
 			}
+		}
+		if staged {
+			// the consumer reads while the rest of the response arrives
+			call := c13Go(consume)
+			call.parkedState(2 * time.Second)
+			k.tr.Feed(later...)
+			if !call.wait(20 * time.Second) {
+				cancel()
+				call.wait(10 * time.Second)
+			}
+			if !awaitIdle(k.tr, 30*time.Second) {
+				r.Inconclusive("round %d: reader not idle after the staged response", ri)
+				return
+			}
+		} else {
+			consume()
 		}
 		close(finished)
 		cancel()
@@ -375,7 +447,7 @@ func c03Run(c *Ctx, cs c03Case) {
 	if nontrivial && len(cs.Rounds) >= 2 {
 		var key strings.Builder
 		for _, rd := range cs.Rounds {
-			fmt.Fprintf(&key, "%s|%s|%v|%s|%d|%s|%v;", rd.Shape, rd.CutClass, rd.Cuts, rd.Style, rd.AbortAt, rd.Outcome, rd.LateEOM)
+			fmt.Fprintf(&key, "%s|%s|%v|%s|%d|%s|%v|%s;", rd.Shape, rd.CutClass, rd.Cuts, rd.Style, rd.AbortAt, rd.Outcome, rd.LateEOM, rd.Sched)
 		}
 		r.Distinct(key.String())
 	}
@@ -580,6 +652,12 @@ func c03GenRound(rnd *rt.Rand, shapes []c03Shape, si int) c03Round {
 	}
 	if n == 0 {
 		rd.CutClass = "header-only-eom"
+	}
+	switch rnd.Intn(6) {
+	case 0:
+		rd.Sched = "overtake"
+	case 1:
+		rd.Sched = "staged-nowait"
 	}
 	exp := c03Expected(rd.Kinds)
 	if rnd.Chance(1, 8) {
